@@ -13,7 +13,7 @@ Definition lit_extends : list Z := [101; 120; 116; 101; 110; 100; 115].
 Definition lit_oneway : list Z := [111; 110; 101; 119; 97; 121].
 Definition lit_void : list Z := [118; 111; 105; 100].
 Definition lit_throws : list Z := [116; 104; 114; 111; 119; 115].
-Definition oneway_opt : cexpr action := CLabel "oneway" (COpt (CSeq [CLit lit_oneway; CRef 55])).
+Definition oneway_opt : cexpr action := CLabel "oneway" (COpt (CSeq [CLit lit_oneway; kw_guard; CRef 55])).
 Definition extends_opt : cexpr action := CLabel "extends" (COpt (CSeq [CLit lit_extends; CRef 55; CRef 45; CRef 55])).
 
 Lemma service_shapes :
@@ -26,7 +26,7 @@ Lemma service_shapes :
                                                        CLabel "arguments" (CRef 14); CLit [41]; CRef 55;
                                                        CLabel "exceptions" (COpt (CRef 21)); CRef 56; anns_opt;
                                                        COpt (CRef 46)]))
-  /\ nth_error rules 20 = Some (CAct AFunctionType1 (CLabel "typ" (CChoice [CLit lit_void; CRef 22])))
+  /\ nth_error rules 20 = Some (CAct AFunctionType1 (CLabel "typ" (CChoice [CSeq [CLit lit_void; kw_guard]; CRef 22])))
   /\ nth_error rules 21 = Some (CAct AThrows1 (CSeq [CLit lit_throws; CRef 55; CLit [40]; CRef 55;
                                                      CLabel "exceptions" (CRef 14); CLit [41]])).
 Proof. repeat (split; [vm_compute; reflexivity|]). vm_compute; reflexivity. Qed.
@@ -66,7 +66,8 @@ Proof.
       reflexivity. }
     rewrite Hfind in Hc.
     assert (Hname : evals (CLabel "name" (CRef 24)) 23 (st_of s o es) [] (Done false VNil (st_of s o es) [])).
-    { apply E_label_fail with (fr1 := []). eapply E_ref; [exact H24|]. apply E_act_fail. apply E_choice. exact Hc. }
+    { apply E_label_fail with (fr1 := []). eapply E_ref; [exact H24|]. apply E_act_fail. apply E_seq.
+      exact (S_fail 24 _ _ _ _ _ _ _ _ _ (E_choice _ _ _ _ _ Hc)). }
     eapply E_ref; [exact H23|]. apply E_act_fail. apply E_seq. exact (S_fail 23 _ _ _ _ _ _ _ _ _ Hname). }
   (* ContainerType *)
   assert (Hcont : evals (CRef 25) 22 (st_of s o es) [] (Done false VNil (st_of s o es) [])).
@@ -111,9 +112,23 @@ Definition render_fn (f : fn_spec) (more : bytes) : bytes :=
        ((fn_c f :: fn_t f) ++ fn_g f ++ 40 :: fn_w f
         ++ render_fds (fn_args f) (41 :: fn_tail_text (fn_tl f) more))).
 
-Definition ow_ok (ow : ow_spec) : Prop := match ow with OW_none => True | OW_oneway W => run_of p_wsnl W end.
+(** the keywords oneway and void end at a word boundary (since the repairs of C10-F8c / F8d  onewayTicket  and
+    voidable  are type names): something must separate them from what follows; likewise a base-type keyword
+    and the method name *)
+Definition ow_ok (ow : ow_spec) : Prop :=
+  match ow with OW_none => True | OW_oneway W => run_of p_wsnl W /\ W <> [] end.
 Definition ret_ok (r : ret_spec) : Prop :=
-  match r with R_void W => run_of p_wsnl W | R_type t W => ty_ok t /\ run_of p_wsnl W /\ nl_led W end.
+  match r with
+  | R_void W => run_of p_wsnl W /\ W <> []
+  | R_type t W => ty_ok t /\ run_of p_wsnl W /\ nl_led W /\ (ty_tight t \/ W <> [])
+  end.
+
+Lemma wsnl_stop : forall W s, run_of p_wsnl W -> W <> [] -> stops p_cont (W ++ s).
+Proof.
+  intros [|d W] s HW Hne; [congruence|]. inversion HW as [|? ? [Hd Hp] _]; subst. cbn [app stops].
+  split; [exact Hd | exact (wsnl_not_cont d Hp)].
+Qed.
+
 Definition fn_tail_ok (tl : fn_tail) : Prop :=
   match tl with
   | FN_plain W2 => run_of p_wsnl W2
@@ -278,21 +293,28 @@ Lemma function_type_rule : forall r c x cr o es fr,
 Proof.
   intros r c x cr o es fr Hr Hc Hp. destruct service_shapes as (_ & _ & H20 & _).
   destruct r as [W|t W]; cbn [render_ret ret_ok ret_val ret_gap] in *.
-  - assert (Hn : ascii_next (W ++ c :: x)) by exact (run_app_ascii_next p_wsnl W (c :: x) Hr Hc).
+  - destruct Hr as [Hr HWn].
+    assert (Hn : ascii_next (W ++ c :: x)) by exact (run_app_ascii_next p_wsnl W (c :: x) Hr Hc).
     eexists. eapply E_ref; [exact H20|]. eapply E_act_ok.
-    + apply E_label_ok with (fr1 := []). apply E_choice. eapply C_ok.
-      exact (lit_here lit_void (W ++ c :: x) 20 o es [] ltac:(all_ascii) Hn).
+    + apply E_label_ok with (fr1 := []). apply E_choice. eapply C_ok. apply E_seq.
+      eapply S_ok; [exact (lit_here lit_void (W ++ c :: x) 20 o es [] ltac:(all_ascii) Hn)|].
+      eapply S_ok; [exact (kw_guard_ok 20 (W ++ c :: x) _ es [] (wsnl_stop W (c :: x) Hr HWn))|]. apply S_nil.
     + unfold finish_action. cbn [rest off]. unfold run_action, run_action_opt.
       replace (o + Z.of_nat (List.length lit_void) - o) with (Z.of_nat (List.length lit_void)) by lia.
       rewrite takeZ_app_exact. reflexivity.
-  - destruct Hr as (Hty & HW & Hnl).
+  - destruct Hr as (Hty & HW & Hnl & Hor).
     assert (Hm : head_not [32; 9; 13; 47; 40] (W ++ c :: x)).
     { destruct W as [|d W']; cbn [app]; [exact (start_head_not c x Hc Hp)|]. cbn in Hnl. subst d.
       apply nl_head_not. repeat constructor; lia. }
-    destruct (field_type_rule t Hty (W ++ c :: x) 20%nat o es [] Hm) as [o' Hft].
+    assert (Hsep : ty_sep t (W ++ c :: x)).
+    { destruct t as [b g|? ? ?|? ? ?|? ? ? ? ?]; cbn [ty_sep]; try exact I.
+      destruct Hty as [_ Hg]. destruct g as [|c0 g]; cbn [app].
+      - destruct Hor as [Ht|HWn]; [cbn in Ht; congruence|]. exact (wsnl_stop W (c :: x) HW HWn).
+      - exact (blanks_stop (c0 :: g) (W ++ c :: x) Hg ltac:(discriminate)). }
+    destruct (field_type_rule t Hty (W ++ c :: x) 20%nat o es [] Hm Hsep) as [o' Hft].
     exists o'. eapply E_ref; [exact H20|]. eapply E_act_ok.
     + apply E_label_ok with (fr1 := []). apply E_choice.
-      eapply C_next; [refine (lit_fails 118 [111; 105; 100] 20 _ o es [] ltac:(all_ascii) _);
+      eapply C_next; [apply E_seq; refine (S_fail 20 _ _ _ _ _ _ _ _ _ (lit_fails 118 [111; 105; 100] 20 _ o es [] ltac:(all_ascii) _));
                       apply ty_head_not; [exact Hty | not_ty_start]|].
       eapply C_ok. exact Hft.
     + reflexivity.
@@ -318,7 +340,7 @@ Ltac not_ret_start := repeat constructor; unfold ty_start; lia.
 
 (** the optional oneway *)
 Definition ow_val (ow : ow_spec) : val :=
-  match ow with OW_none => VNil | OW_oneway W => VList [VBytes lit_oneway; VList (bytes_vals W)] end.
+  match ow with OW_none => VNil | OW_oneway W => VList [VBytes lit_oneway; VNil; VList (bytes_vals W)] end.
 
 Lemma oneway_rule : forall ow r rst cr o es fr,
   ow_ok ow -> ret_ok r ->
@@ -329,10 +351,12 @@ Proof.
   - exists o. apply E_label_ok with (fr1 := []). eapply E_opt. apply E_seq.
     assert (H111 : head_not [111] (render_ret r rst)) by (apply ret_head_not; [exact Hr | not_ret_start]).
     exact (S_fail cr _ _ _ _ _ _ _ _ _ (lit_fails 111 [110; 101; 119; 97; 121] cr _ o es [] ltac:(all_ascii) H111)).
-  - assert (H6 : head_not [32; 9; 13; 10; 47; 35] (render_ret r rst)) by (apply ret_head_not; [exact Hr | not_ret_start]).
+  - destruct How as [How HWn].
+    assert (H6 : head_not [32; 9; 13; 10; 47; 35] (render_ret r rst)) by (apply ret_head_not; [exact Hr | not_ret_start]).
     eexists. apply E_label_ok with (fr1 := []). eapply E_opt. apply E_seq.
     eapply S_ok; [refine (lit_here lit_oneway _ cr o es [] ltac:(all_ascii) _);
                   exact (run_app_ascii_next p_wsnl W _ How (head_not_ascii_next _ _ H6))|].
+    eapply S_ok; [exact (kw_guard_ok cr _ _ es [] (wsnl_stop W _ How HWn))|].
     eapply S_ok; [exact (gap_free W _ cr _ es _ How H6)|].
     apply S_nil.
 Qed.
@@ -448,7 +472,8 @@ Proof.
                       (Done false VNil (st_of (125 :: x) o es) [("oneway"%string, VNil); ("docstr"%string, VNil)])).
   { apply E_label_fail with (fr1 := []). eapply E_ref; [exact H20|]. apply E_act_fail.
     apply E_label_fail with (fr1 := []). apply E_choice.
-    eapply C_next; [exact (lit_fails 118 [111; 105; 100] 20 _ o es [] ltac:(all_ascii) (Hh [118] ltac:(repeat constructor; lia)))|].
+    eapply C_next; [apply E_seq; exact (S_fail 20 _ _ _ _ _ _ _ _ _
+                      (lit_fails 118 [111; 105; 100] 20 _ o es [] ltac:(all_ascii) (Hh [118] ltac:(repeat constructor; lia))))|].
     eapply C_next; [apply field_type_fails; split; [unfold ascii; lia | reflexivity] | apply C_nil]. }
   eapply E_ref; [exact H19|]. apply E_act_fail. apply E_seq.
   eapply S_ok; [exact (doc_opt_nil 19 (125 :: x) o es [] (Hh [47] ltac:(repeat constructor; lia)))|].
